@@ -45,6 +45,9 @@ type Finding struct {
 	Label    string `json:"label"` // assertion label, or "panic: <what> in <function>"
 	What     string `json:"what"`
 	Commit   string `json:"commit,omitempty"`
+	// Input pins the finding to the inputs that fail: every listed draw (label -> rendered value) must have that value in
+	// the counterexample; a counterexample of the same label with other inputs is a NEW violation.
+	Input map[string]string `json:"input,omitempty"`
 }
 
 type KnownFindings struct {
@@ -61,10 +64,23 @@ func loadKnown() KnownFindings {
 	return k
 }
 
-func (k KnownFindings) match(prop, harness, label string) *Finding {
+func (k KnownFindings) match(prop, harness, label string, witness []WDraw) *Finding {
 	for i := range k.Open {
 		f := &k.Open[i]
-		if f.Property == prop && f.Harness == harness && f.Label == label {
+		if f.Property != prop || f.Harness != harness || f.Label != label {
+			continue
+		}
+		ok := true
+		for dl, dv := range f.Input {
+			found := false
+			for _, w := range witness {
+				if w.Label == dl && drawString(w) == dv {
+					found = true
+				}
+			}
+			ok = ok && found
+		}
+		if ok {
 			return f
 		}
 	}
@@ -112,6 +128,7 @@ func runCheck(id, tier string, seed int64) int {
 	fmt.Printf("   loaded+built SSA in %v, native harness in %v\n", loadT.Round(time.Millisecond), nat.BuildTime.Round(time.Millisecond))
 
 	known := loadKnown()
+	knownPrinted := map[string]bool{}
 	var results []*HarnessResult
 	exit := 0
 	violations := 0
@@ -129,7 +146,7 @@ func runCheck(id, tier string, seed int64) int {
 			smtLog = filepath.Join(nat.dir, "stream-"+spec.Name+".smt2")
 		}
 		res := explore(ld, spec, tier, seed, 16, smtLog, func(v Violation) bool {
-			if known.match(id, spec.Name, v.Label) != nil {
+			if known.match(id, spec.Name, v.Label, v.Witness) != nil {
 				return false // a listed finding does not end the search for others
 			}
 			got := nat.runBatch([]batchItem{{ID: 0, Harness: spec.Name, Tier: tier, Bounds: spec.bounds(tier), Witness: v.Witness}})
@@ -194,8 +211,11 @@ func runCheck(id, tier string, seed int64) int {
 			inconclusive = append(inconclusive, fmt.Sprintf("%d trace mismatches between engine and native run", len(res.TraceMismatches)))
 		}
 		for k, c := range res.Confirmed {
-			if f := known.match(id, spec.Name, c.V.Label); f != nil {
-				fmt.Printf("KNOWN-FINDING: property=%s %s [%s / %s]\n", id, f.What, spec.Name, c.V.Label)
+			if f := known.match(id, spec.Name, c.V.Label, c.V.Witness); f != nil {
+				if !knownPrinted[f.What] {
+					knownPrinted[f.What] = true
+					fmt.Printf("KNOWN-FINDING: property=%s %s [%s / %s]\n", id, f.What, spec.Name, c.V.Label)
+				}
 				continue
 			}
 			violations++
